@@ -190,7 +190,10 @@ class Gen:
         if depth < 2 and x < 0.25:
             return (r.choice(["and", "or"]), self.gen_pred(d, depth + 1, avoid_pk), self.gen_pred(d, depth + 1, avoid_pk))
         if depth < 2 and x < 0.3:
-            return ("not", self.gen_pred(d, depth + 1, avoid_pk))
+            # NOT only over an atom: `not ((b < -2) and (b > 2))` deletes rows whose b is NULL on both
+            # engines (the optimizer folds the contradictory range to false ignoring NULL: C01/C14's
+            # finding, not a storage defect) - reported to the lead, kept out of the storage checks
+            return ("not", self.gen_pred(d, 2, avoid_pk))
         i = r.choice(cand)
         ty = d.cols[i][1]
         if x < 0.4:
@@ -208,7 +211,7 @@ class Gen:
         self.count("opt:block=%d" % block)
         return o
 
-    def history(self, hid, nsteps=None, weights=None, bulk=False):
+    def history(self, hid, nsteps=None, weights=None, bulk=False, followup=True):
         """Returns dict(id, line, steps, opts, names)."""
         r = self.r
         nsteps = nsteps or r.randint(6, 22)
@@ -303,6 +306,26 @@ class Gen:
                      "sql": "delete from %s" % t + ("" if ps is None else " where " + ps)})
             else:
                 add({"k": k})
+                if k == "reopen" and followup:
+                    # ids handed out right after a reopen are where a wrongly restored counter shows:
+                    # touch every table that is alive - DELETE (new DV ids, on row-sets that may already
+                    # carry DVs), INSERT (new row-set ids), a second DELETE with another predicate so
+                    # that other row-sets are hit as well
+                    for t in sorted(live):
+                        d = live[t]
+                        for kind in ("delete", "insert", "delete"):
+                            if kind == "insert":
+                                rows = self.gen_rows(d, r.randint(1, 3), base)
+                                base += len(rows)
+                                sql = "insert into %s values %s" % (t, ", ".join(
+                                    "(" + ", ".join(sql_lit(v, c[1]) for v, c in zip(row, d.cols)) + ")" for row in rows))
+                                add({"k": "insert", "table": t, "rows": rows, "def": d, "sql": sql, "followup": True})
+                            else:
+                                p = self.gen_pred(d, 2)
+                                ps = pred_sql(p, d)
+                                add({"k": "delete", "table": t, "pred": p, "def": d, "followup": True,
+                                     "sql": "delete from %s" % t + ("" if ps is None else " where " + ps)})
+                        self.count("reopen:followup-tables")
         line = "(hist %d (opts %d %d %d %d) (names %s) %s)" % (
             hid, opts[0], opts[1], opts[2], opts[3], " ".join(names), " ".join(step_sexp(s) for s in steps))
         return {"id": hid, "line": line, "steps": steps, "opts": opts, "names": names}
@@ -429,12 +452,11 @@ def canon_tabs(txt):
 
 def canon_manifest(txt, rename=None):
     """Canonical form of a printed manifest: per transaction, table ops in order, the other
-    records sorted, DV ids detached from their row-sets (which DV id goes to which row-set of one
-    DELETE follows hash-map order in the implementation)."""
+    records sorted.  Which DV id goes to which row-set of one DELETE follows hash-map order in the
+    implementation, so `AddDV` records are compared as (row-sets touched, SET of ids allocated) - the
+    raw ids, which is what makes a wrongly restored id counter visible - and `DeleteDV` records with
+    the ids renamed through the pairing established when the DVs were created."""
     recs = txt.split()
-    if rename:
-        recs = [(r.split(":")[0] + ":" + rename[r.split(":", 1)[1]]) if (r[:3] in ("AV:", "DV:") and r.split(":", 1)[1] in rename) else r
-                for r in recs]
     txns, cur, loose = [], None, []
     for r in recs:
         if r == "B":
@@ -450,9 +472,15 @@ def canon_manifest(txt, rename=None):
     for t in txns:
         tab = [x for x in t if x[0] in "CD" and not x.startswith("DR") and not x.startswith("DV")]
         rest = sorted(x for x in t if x.startswith("AR") or x.startswith("DR"))
-        dvs = sorted(x.rsplit(".", 1)[0] for x in t if x.startswith("AV") or x.startswith("DV:"))
-        dvids = sorted(int(x.rsplit(".", 1)[1]) for x in t if x.startswith("AV") or x.startswith("DV:"))
-        out.append(" ".join(tab + rest + dvs) + " ids=" + ",".join(map(str, dvids)))
+        adds = sorted(x.rsplit(".", 1)[0] for x in t if x.startswith("AV:"))
+        add_ids = sorted(int(x.rsplit(".", 1)[1]) for x in t if x.startswith("AV:"))
+        dels = [x[3:] for x in t if x.startswith("DV:")]
+        if rename:
+            dels = [rename.get(x, x) for x in dels]
+        del_keys = sorted("DV:" + x.rsplit(".", 1)[0] for x in dels)
+        del_ids = sorted(int(x.rsplit(".", 1)[1]) for x in dels)
+        out.append(" ".join(tab + rest + adds + del_keys) + " new_dv_ids=" + ",".join(map(str, add_ids))
+                   + " del_dv_ids=" + ",".join(map(str, del_ids)))
     if cur:
         out.append("OPEN " + " ".join(cur))
     if loose:
